@@ -1,7 +1,15 @@
+"""Stand-in for deepspeed.pipe: only what kfac.gpt_neox needs (see DESIGN.md section 2.4)."""
 import torch
+
+
 class PipelineModule(torch.nn.Module):
-    def __init__(self, layers, topology):
+    """Holds this stage's layers under their *global* layer index, as DeepSpeed does."""
+
+    def __init__(self, layers, topology, offset=0):
         super().__init__()
-        self.layers_ = torch.nn.ModuleList(layers)
+        for i, layer in enumerate(layers):
+            self.add_module(str(offset + i), layer)
         self._topo = topology
-    def topology(self): return self._topo
+
+    def topology(self):
+        return self._topo
